@@ -9,6 +9,7 @@
     tree is based on, never LoadVersionForOverwriting(0)) and the side condition [init_ok] on the
     initial version.  Statements are restated in full; proofs are in VersionFacts.v. *)
 From IAVL Require Import Bytes Varint Sha256 Tree VMap TreeFacts MTree MTreeFacts VersionFacts.
+From IAVL Require Import HashFacts Store StoreFacts PruneAlgo Discover DiscoverFacts.
 Local Open Scope Z_scope.
 
 (** *** 1. The contract, the invariant, its preservation *)
@@ -306,4 +307,80 @@ Proof.
   split.
   { apply reachable_contig; [unfold init_ok; lia|]. apply run_okb_iff. vm_compute. reflexivity. }
   vm_compute. do 2 eexists. reflexivity.
+Qed.
+
+(** *** 9. What a freshly opened store discovers (Discover.v: getLatestVersion, the binary search
+    of getFirstVersion over the root keys, versionExists / AvailableVersions)
+
+    On the PHYSICAL store of every reachable in-contract state - the expected store with the
+    roots of the versions in [r] re-keyed to nonce 0 by earlier deletions - a tree object that has
+    cached nothing discovers exactly [first .. latest], PROVIDED no node stored under the root key
+    of a deleted version is still part of a retained tree except the re-keyed ones
+    ([stale_free_rel]).  Without that proviso the statement is false: finding C14-stale-root-key,
+    whose trigger is thereby delimited exactly. *)
+
+Theorem C14_discovery_defs :
+  (forall st v, has_version st v = mhas kcmp (v, 1) st) /\
+  (forall st, discover_first st = bsearch 64 st 0 (discover_latest st)) /\
+  (forall r f, stale_free_rel r f =
+     forall v t u, In (v, Some t) f -> subtree u t -> nonce (nmeta u) = 1 ->
+                   first_of_forest f <= ver (nmeta u) \/ In (ver (nmeta u)) r) /\
+  (forall r f, phys_of r f = rekey r (expected_store f)).
+Proof. repeat split. Qed.
+Print Assumptions C14_discovery_defs.
+
+Theorem C14_binary_search_any_store :
+  forall st fuel lo hi, lo <= hi -> hi - lo < 2 ^ Z.of_nat fuel ->
+  exists m, bsearch fuel st lo hi = Some m /\ lo <= m <= hi /\
+            (has_version st m = true \/ m = hi) /\ (m = lo \/ has_version st (m - 1) = false).
+Proof. exact bsearch_general. Qed.
+Print Assumptions C14_binary_search_any_store.
+
+Theorem C14_discovery_exact_on_reachable_physical_stores :
+  forall (H : bytes -> bytes) (iv : Z) (b : bool) (ops : list op) (r : list Z),
+  init_ok iv b -> run_ok H (init_state iv b) ops ->
+  let s := fst (run H (init_state iv b) ops) in
+  latest_version s < 2 ^ 63 ->
+  stale_free_rel r (forest s) -> (forall x, In x r -> x < first_version s) ->
+  discovered_range (phys_of r (forest s)) = Some (first_version s, latest_version s) /\
+  discovered_available (phys_of r (forest s)) = Some (available s).
+Proof. exact discover_reachable_rel. Qed.
+Print Assumptions C14_discovery_exact_on_reachable_physical_stores.
+
+Theorem C14_discovery_never_above_first :
+  forall (r : list Z) (f : forest_t) iv,
+  f <> [] -> forest_inv f -> forest_ok f iv -> latest_of_forest f < 2 ^ 63 ->
+  (forall x, In x r -> x < first_of_forest f) ->
+  exists m, discover_first (phys_of r f) = Some m /\ 0 <= m <= first_of_forest f /\
+            has_version (phys_of r f) m = true /\
+            (m = 0 \/ has_version (phys_of r f) (m - 1) = false).
+Proof. exact discover_first_lower. Qed.
+Print Assumptions C14_discovery_never_above_first.
+
+Theorem C14_stale_root_key_refuted :
+  let s0 := fst (run sha256 (init_state 0 false) stale_hist0) in
+  let s := fst (run sha256 (init_state 0 false) stale_hist) in
+  init_ok 0 false /\
+  run_ok sha256 (init_state 0 false) stale_hist /\
+  (exists w fl, prune_forest sha256 false [] (forest s0) [] 1 = POk (expected_store (forest s), w, fl)) /\
+  map fst (expected_store (forest s)) = [(1, 1); (2, 1); (2, 2)] /\
+  first_version s = 2 /\ latest_version s = 2 /\ available s = [2] /\
+  latest_version s < 2 ^ 63 /\
+  ~ stale_free (forest s) /\
+  has_version (expected_store (forest s)) 1 = true /\
+  discovered_range (expected_store (forest s)) = Some (1, 2) /\
+  discovered_available (expected_store (forest s)) = Some [1; 2].
+Proof. exact discover_stale_refuted. Qed.
+Print Assumptions C14_stale_root_key_refuted.
+
+(** the hypotheses are satisfiable on a state with a re-keyed root: four versions, the second
+    shares the root of the first, DeleteVersionsTo(1) re-keys it to (1,0) *)
+Example C14_discovery_example :
+  let s := dx_state (dx_hist ++ [OPrune 1]) in
+  discovered_range (phys_of [1] (forest s)) = Some (first_version s, latest_version s) /\
+  discovered_available (phys_of [1] (forest s)) = Some (available s) /\
+  available s = [2; 3; 4].
+Proof.
+  cbv zeta. split; [apply dx_discover_rekeyed_thm|]. split; [apply dx_discover_rekeyed_thm|].
+  vm_compute. reflexivity.
 Qed.
